@@ -46,6 +46,7 @@ func run(e *core.Env) {
 	core.Parallel(e, "proxy", n, 16, func(i int) {
 		r := core.NewRNG(e.Seed, stream, i)
 		c := genCase(r, small)
+		c.Relay = core.NewRNG(e.Seed, stream+".relay", i).Chance(1, 3)
 		rec.Begin("proxy", i, c.Scenario)
 		var out *outcome
 		cr := &caseRun{}
@@ -378,6 +379,16 @@ func (o *origin) writer() {
 	}
 }
 
+// lateConn is a transport whose Write looks at the caller's bytes only after every other goroutine has had its turn,
+// as a socket does that blocks in the middle of a write. The io.Writer contract lets it: the slice belongs to the
+// callee until Write returns.
+type lateConn struct{ *netsim.BufConn }
+
+func (l lateConn) Write(b []byte) (int, error) {
+	time.Sleep(time.Microsecond) // virtual time inside the bubble: returns once everything else is blocked
+	return l.BufConn.Write(b)
+}
+
 // caseRun keeps the live state of a case reachable from outside the bubble, so that a case that ends in
 // a deadlock can still be judged on what had been captured.
 type caseRun struct {
@@ -456,11 +467,27 @@ func execCase(c *caseSpec, cr *caseRun) *outcome {
 		}
 		set(func() { out.proceeded = true })
 		og.conn = oc
+		relayDone := make(chan struct{})
+		if c.Relay {
+			rEnd, oEnd := netsim.Pair(nil, nil, false)
+			og.conn = oEnd
+			go func() {
+				defer close(relayDone)
+				netio.BidirectionalCopy(oc, lateConn{rEnd})
+				rEnd.Close()
+			}()
+		} else {
+			close(relayDone)
+		}
 		var w2 sync.WaitGroup
 		w2.Add(2)
 		go func() { defer w2.Done(); og.reader() }()
 		go func() { defer w2.Done(); og.writer() }()
 		w2.Wait()
+		if c.Relay {
+			og.conn.Close()
+			<-relayDone
+		}
 		oc.Close()
 	}()
 	wg.Wait()
